@@ -581,8 +581,8 @@ def minimize_lbfgsb(
                 # Reboot BFGS-Hessian
                 mats = LBFGSB_MATRICES(n)
         else:
-            # x update
-            x += steplength * d
+            # x update: the trial point of the line search (projected onto the box)
+            x = np.clip(x + steplength * d, lb, ub)
 
             # new evaluation -> normally, the function has been updated in
             # the linesearch step
